@@ -1,25 +1,43 @@
 ---------------------------- MODULE Gen_Signals ----------------------------
-(* Behaviour generator for C04: every sequence of whole driver steps (enable / disable / destroy       *)
-(* of an event - re-creation after a destroy is left to the random histories -, delivery of a signal followed by all pipe reads) of the bounded model up to    *)
-(* Depth is printed as a JSON script {cfg, ops}.  The C++ driver executes each script on real loops,   *)
-(* threads and signals; the recorded trace is validated against Trace_Signals.                         *)
+(* Behaviour generator for C04: every sequence of whole driver steps of the bounded sequential model up to Depth is      *)
+(* printed as a JSON script {ev, ops}:                                                                                   *)
+(*   enable / disable / destroy of an event (re-creation after a destroy is left to the random histories),               *)
+(*   raise S: delivery of a signal followed by all pipe reads of the loops that are not held,                            *)
+(*   batch L <<disable e1, enable e2>>: two subscription calls in ONE task of the loop (GenBatch),                       *)
+(*   hold L / release L: the loop thread is kept busy while signals are raised, then reads the batch (GenHold).          *)
+(* Callbacks run the programs of the event configuration (callbacks that enable/disable/destroy events).                 *)
+(* StartOn: the behaviours start with every event enabled (the enable steps are put in front of every script).           *)
+(* The C++ driver executes each script on real loops, threads and signals; the recorded trace is validated against       *)
+(* Trace_Signals.                                                                                                        *)
 EXTENDS MC_Signals, Json
-CONSTANT Depth
+CONSTANTS Depth, GenBatch, GenHold, StartOn
 VARIABLE hist
 gvars == <<vars, hist>>
-H(o, a) == hist' = Append(hist, [o |-> o, a |-> a])
+HH(o, a, ops) == hist' = Append(hist, [o |-> o, a |-> a, ops |-> ops])
+H(o, a) == HH(o, a, <<>>)
 
-RECURSIVE DrainF(_, _)
-DrainF(kk, stt) ==
-  LET busy == {L \in Loops : kk.hp[L] /\ kk.pipe[L] # <<>>} IN
-  IF busy = {} THEN [k |-> kk, st |-> stt]
-  ELSE LET r == ReadF(kk, stt, Min(busy)) IN DrainF(r.k, r.st)
+\* all loops that are not held read their pipes until they are empty (subscribers served in ascending order).
+\* bad: a callback closed the loop's pipe while further numbers were pending - what happens to those is not specified
+\* (the model drops them, the code still dispatches the part of the batch it has already read): such behaviours are pruned.
+RECURSIVE DrainF(_, _, _, _)
+DrainF(kk, stt, hl, bad) ==
+  LET busy == {L \in Loops \ hl : kk.hp[L] /\ kk.pipe[L] # <<>>} IN
+  IF busy = {} THEN [k |-> kk, st |-> stt, bad |-> bad]
+  ELSE LET L == Min(busy)
+           rest == Tail(kk.pipe[L])
+           r == ReadF(kk, stt, L)
+       IN DrainF(r.k, r.st, hl, bad \/ (rest # <<>> /\ r.k.pipe[L] # rest))
 
 GRaise(S) ==
   /\ Quiescent /\ NoOps /\ RaiseOK /\ k.disp[S].h # "dfl"
-  /\ LET r == DrainF(RaiseK(k, S), st) IN k' = r.k /\ st' = r.st
+  /\ LET r == DrainF(RaiseK(k, S), st, held, FALSE) IN ~r.bad /\ k' = r.k /\ st' = r.st
   /\ g' = [g EXCEPT !.raises = Bump]
-  /\ UNCHANGED <<cfg, kind, op, h, fired>>
+  /\ UNCHANGED <<held, cfg, kind, op, h, fired>>
+GRelease(L) ==
+  /\ L \in held /\ NoOps /\ Quiescent
+  /\ held' = held \ {L}
+  /\ LET r == DrainF(k, st, held', FALSE) IN ~r.bad /\ k' = r.k /\ st' = r.st
+  /\ UNCHANGED <<cfg, kind, op, h, g, fired>>
 
 CfgGen ==
   { [e \in Events |-> CASE e = 1 -> E(TRUE, 1, {1, 2}, FALSE)       \* multi-signal, persistent, loop 1
@@ -28,15 +46,40 @@ CfgGen ==
     [e \in Events |-> CASE e = 1 -> E(TRUE, 1, {1, 2}, TRUE)        \* multi-signal one-shot
                         [] e = 2 -> E(TRUE, 2, {2}, FALSE)
                         [] OTHER -> E(TRUE, 2, {1, 2}, FALSE)] }
+CfgSwap  == {CbSwap, CbMix}
+CfgGroup == {CbGroup}
 
-GInit == Init /\ hist = <<>>
+OnLoop(L) == {e \in Events : cfg[e].used /\ cfg[e].L = L}
+AllOn(L) == [i \in 1..Cardinality(OnLoop(L)) |-> Do("enable", SeqOf(OnLoop(L))[i])]
+RECURSIVE EnableLoops(_, _)
+EnableLoops(r, Ls) == IF Ls = {} THEN r ELSE EnableLoops(RunOps(r, Min(Ls), AllOn(Min(Ls))), Ls \ {Min(Ls)})
+Prefix == IF StartOn THEN [i \in 1..Cardinality({e \in Events : cfg[e].used}) |->
+                            [o |-> "enable", a |-> SeqOf({e \in Events : cfg[e].used})[i], ops |-> <<>>]]
+          ELSE <<>>
+
+GInit ==
+  /\ Init
+  /\ hist = <<>>
+GStart ==               \* StartOn: the first step enables everything (not counted in Depth)
+  /\ StartOn /\ hist = <<>>
+  /\ LET r == EnableLoops(R0(k, st), Loops) IN k' = r.k /\ st' = r.st
+  /\ hist' = Prefix
+  /\ UNCHANGED <<held, cfg, kind, op, h, g, fired>>
+Started == ~StartOn \/ hist # <<>>
 GNext ==
-  \/ \E e \in Events : \/ SEnable(e) /\ H("enable", e)
-                       \/ SDisable(e) /\ H("disable", e)
-                       \/ SDestroy(e) /\ H("destroy", e)
-  \/ \E S \in Sigs : GRaise(S) /\ H("raise", S)
+  \/ GStart
+  \/ Started /\ \E e \in Events : \/ SEnable(e) /\ H("enable", e)
+                                  \/ SDisable(e) /\ H("disable", e)
+                                  \/ SDestroy(e) /\ H("destroy", e)
+  \/ Started /\ \E S \in Sigs : GRaise(S) /\ H("raise", S)
+  \/ Started /\ GenBatch /\ \E e1, e2 \in Events :
+        /\ e1 # e2 /\ Used(e1) /\ Used(e2) /\ cfg[e1].L = cfg[e2].L /\ st[e1] = "on" /\ st[e2] = "off"
+        /\ LET ops == <<Do("disable", e1), Do("enable", e2)>> IN SBatch(cfg[e1].L, ops) /\ HH("batch", cfg[e1].L, ops)
+  \/ Started /\ GenHold /\ \E L \in Loops : \/ Cardinality(held) < 1 /\ SHold(L) /\ H("hold", L)
+                                            \/ GRelease(L) /\ H("release", L)
 GSpec == GInit /\ [][GNext]_gvars
-Emit == IF Len(hist) >= Depth
-        THEN PrintT("BEH " \o ToJson([ev |-> [e \in Events |-> [L |-> cfg[e].L, sigs |-> cfg[e].sigs, os |-> cfg[e].os]], ops |-> hist])) /\ FALSE
+Emit == IF Len(hist) >= Depth + Len(Prefix)
+        THEN PrintT("BEH " \o ToJson([ev |-> [e \in Events |-> [L |-> cfg[e].L, sigs |-> cfg[e].sigs, os |-> cfg[e].os, prog |-> cfg[e].prog]],
+                                      ops |-> hist])) /\ FALSE
         ELSE TRUE
 =============================================================================
